@@ -21,7 +21,7 @@ ASSUMPTIONS = [
     "gmpy2.qdiv is replaced by fractions.Fraction (exact) because gmpy2 is not installed",
     "HyperbolicPairing is explored up to index 20000 (quick) / 100000 (thorough) (divisor-function cost)",
 ]
-REQUIRED_COUNTERS = ["roundtrip_index", "roundtrip_tuple", "z1d_orders", "lazy_products", "states_enumerations", "states_enumerations_unequal_axis_sizes"]
+REQUIRED_COUNTERS = ["roundtrip_index", "roundtrip_tuple", "z1d_orders", "lazy_products", "states_enumerations", "states_enumerations_unequal_axis_sizes", "states_enumerations_with_a_storage_limit"]
 MIN_NONTRIVIAL = {"quick": 40, "thorough": 200}
 THOROUGH_ROUNDS = 6      # the thorough tier runs the generators this many times (different seeds)
 
@@ -406,6 +406,40 @@ def _states(case, R):
         if again != got[:len(again)] or len(again) != len(got):
             R.violation(f"states-second-pass-differs-{shape}", "second enumeration pass differs from the first",
                         {"first": got[:20], "second": again[:20]})
+    # the inversion sampler stores the first max_logged states and re-enumerates the others at every draw that goes beyond them: a first scan
+    # with a small max_logged, then scans restarted at x = max_logged, return the same states in the same order as the plain enumeration
+    if dim >= 2 and not (dups or extra or missing) and len(got) >= 6:
+        rng_m = np.random.default_rng(case.get("seed", 0) + 5)
+        for M in sorted({int(v) for v in rng_m.integers(1, len(got), size=6)} | {len(got) - 1, len(got) // 2}):
+            sm2 = StatesManager(pairing=pairing, domain=Domain(boundary=Boundary(), grid=grid, pairing=pairing), grid=grid)
+            first = []
+            for x in range(len(got) + 5):
+                st, brk = sm2.project_index_to_state_increment(x, M)
+                if brk:
+                    break
+                first.append(tuple(int(v) for v in np.atleast_1d(st)))
+            ok_first = first == got
+            restarted = None
+            if ok_first:
+                for _ in range(2):
+                    restarted = []
+                    for x in range(M, len(got) + 5):
+                        st, brk = sm2.project_index_to_state_increment(x, M)
+                        if brk:
+                            break
+                        restarted.append(tuple(int(v) for v in np.atleast_1d(st)))
+                    if restarted != got[M:]:
+                        break
+            R.hit("states_enumerations_with_a_storage_limit")
+            if not ok_first or restarted != got[M:]:
+                what = "first scan" if not ok_first else "scan restarted at the storage limit"
+                seq = first if not ok_first else restarted
+                cnt2 = __import__("collections").Counter(seq if not ok_first else got[:M] + seq)
+                twice = [s_ for s_, c_ in cnt2.items() if c_ > 1][:3]
+                R.violation(f"states-enumeration-with-storage-limit-{shape}" + ("-state-returned-twice" if twice else ""), f"storage limit {M} on a {dim}-d grid ({nl} left, {nrs} right): the "
+                            f"{what} returns {len(seq)} states, expected {len(got) if not ok_first else len(got) - M}" + (f"; returned twice: {twice}" if twice else ""),
+                            {"case": case, "max_logged": M})
+                break
     R.nontrivial_case("states", dim, nl, nr, case.get("order"))
     if (dim, nl, nr) == (2, 2, 2):
         R.sample({"kind": "states", "dim": dim, "nl": nl, "nr": nr, "enumerated": got, "admissible": len(want)})
